@@ -4,6 +4,16 @@
 // a real config and against the path/tree model (model (iii)) in lock-step
 // and reports when the two disagree about the outcome. What is checked after
 // each step is up to the property package.
+//
+// Dimensions a property package can switch on through GenCfg (all off by
+// default): index segments in every integer syntax (Respell, WideIdx), Merge
+// sources other than generic data (Sources: mixed Go representations, fresh
+// *Config objects that stay in the case as stand-alone handles, the *Config
+// of an existing handle, generic data embedding such a config), path
+// separators other than "." (Seps). Stand-alone configs live in the same
+// pool as child handles: the model of a Merge copies, so the model trees of
+// source and receiver are independent and any later write that shows up on
+// the other side is reported by the per-handle comparison of the property.
 package hist
 
 import (
@@ -41,6 +51,17 @@ const (
 	Reattach = "reattach"
 )
 
+// Sources of a Merge (Op.From).
+const (
+	FromData   = ""       // generic data: Val as map[string]interface{} / []interface{}
+	FromRepr   = "repr"   // Val in the mixed Go representations chosen by its R fields (typed maps and slices, arrays, structs, pointers, embedded *Config)
+	FromConfig = "config" // a fresh *Config built from Val (NewFrom); it stays in the case as a pooled stand-alone handle
+	FromHandle = "handle" // the *Config of an existing handle: Src == 0 the root, Src == k > 0 pooled handle (k-1) modulo pool size
+	// FromEmbed: generic data that holds the *Config of an existing handle (Src as for FromHandle) as a value:
+	// map[string]interface{}{Name: cfg}, or []interface{}{cfg} if Name is empty
+	FromEmbed = "embed"
+)
+
 // Op is one step of a history.
 type Op struct {
 	Kind   string       `json:"kind"`
@@ -49,7 +70,8 @@ type Op struct {
 	Idx    int          `json:"idx"`
 	Val    *gen.Tree    `json:"val,omitempty"`
 	Policy model.Policy `json:"policy,omitempty"`
-	Src    int          `json:"src,omitempty"` // reattach: pooled handle Src modulo pool size
+	Src    int          `json:"src,omitempty"`  // reattach: pooled handle Src modulo pool size; merge from a handle: see FromHandle
+	From   string       `json:"from,omitempty"` // merge: where the merged value comes from (FromData, FromRepr, FromConfig, FromHandle)
 }
 
 func (o Op) Addr() Addr { return Addr{o.Name, o.Idx} }
@@ -58,6 +80,14 @@ func (o Op) String() string {
 	s := fmt.Sprintf("%s h=%d (%q,%d)", o.Kind, o.H, o.Name, o.Idx)
 	if o.Kind == Merge {
 		s += " " + o.Policy.String()
+		switch o.From {
+		case FromHandle:
+			s += fmt.Sprintf(" from handle src=%d", o.Src)
+		case FromEmbed:
+			s += fmt.Sprintf(" from data embedding handle src=%d", o.Src)
+		case FromConfig, FromRepr:
+			s += " from " + o.From
+		}
 	}
 	if o.Kind == Reattach {
 		s += fmt.Sprintf(" src=%d", o.Src)
@@ -68,6 +98,7 @@ func (o Op) String() string {
 // Case is a whole history.
 type Case struct {
 	PathSep bool      `json:"pathsep"`
+	Sep     string    `json:"sep,omitempty"` // the separator given to PathSep ("" = ".")
 	Init    *gen.Tree `json:"init,omitempty"`
 	Ops     []Op      `json:"ops"`
 	Reads   []Addr    `json:"reads,omitempty"` // addresses of the point reads made after every step
@@ -95,6 +126,9 @@ type State struct {
 	ring    int
 	seq     int
 	written map[*model.Node]bool
+	// Merges whose source was a *Config: the model nodes of the sources
+	cfgSrc []*model.Node
+	cfgIn  map[*model.Node]bool // nodes such a Merge copied into its receiver
 }
 
 // Info describes what one Apply did.
@@ -110,15 +144,27 @@ type Info struct {
 	Retired   int    // handles retired (merge reached their subtree / re-attachment)
 	Pooled    bool   // a handle was added to the pool
 	Receiver  Handle
+	// merges
+	Source      string         // merge: FromData ("data"), FromRepr, FromConfig, FromHandle ("handle: root", "handle: child", "handle: stand-alone")
+	SrcInTarget bool           // merge from a handle that is a descendant of the receiver
+	SrcList     bool           // merge: the top level of the source has a list part
+	SrcDict     bool           // merge: the top level of the source has named keys
+	Reprs       map[string]int // merge from FromRepr: the Go representations used
+	// writes after a Merge whose source was a *Config
+	SrcSide bool // the mutation went into a config (or below one) that was such a source earlier
+	DstSide bool // the mutation went into (or above, or below) a node that was such a receiver earlier
 }
 
 // New builds the initial state of a case. The second result is false if the
 // case is outside the precondition (NoMixed and the initial tree is mixed).
 func New(c Case, noMixed bool) (*State, bool, error) {
-	s := &State{PoolCap: 6, NoMixed: noMixed, written: map[*model.Node]bool{}}
+	s := &State{PoolCap: 6, NoMixed: noMixed, written: map[*model.Node]bool{}, cfgIn: map[*model.Node]bool{}}
 	if c.PathSep {
 		s.Sep = "."
-		s.Opts = []ucfg.Option{ucfg.PathSep(".")}
+		if c.Sep != "" {
+			s.Sep = c.Sep
+		}
+		s.Opts = []ucfg.Option{ucfg.PathSep(s.Sep)}
 	}
 	m := model.NewCont()
 	cfg := ucfg.New()
@@ -197,6 +243,48 @@ func (s *State) containsWritten(n *model.Node) bool {
 // indices, no name and no index) are C07's.
 func ValidAddr(name string, idx int) bool {
 	return idx >= -1 && !(name == "" && idx < 0)
+}
+
+func nodeSet(root *model.Node) map[*model.Node]bool {
+	out := map[*model.Node]bool{}
+	var rec func(n *model.Node)
+	rec = func(n *model.Node) {
+		out[n] = true
+		if n.Kind != "cont" {
+			return
+		}
+		for _, c := range n.D {
+			rec(c)
+		}
+		for _, c := range n.A {
+			rec(c)
+		}
+	}
+	rec(root)
+	return out
+}
+
+// sides classifies a mutation at segs below h with respect to earlier merges
+// from a *Config: did it go into a tree that was the source of one, or into a
+// part of a tree that one has copied in?
+func (s *State) sides(h Handle, segs []model.Seg, old *model.Node, info *Info) {
+	if len(s.cfgSrc) == 0 {
+		return
+	}
+	p := h.M
+	if len(segs) > 1 {
+		if n, err := h.M.Lookup(segs[:len(segs)-1]); err == nil {
+			p = n
+		}
+	}
+	for _, n := range s.cfgSrc {
+		if n.Contains(p) {
+			info.SrcSide = true
+		}
+	}
+	if s.cfgIn[p] || (old != nil && s.cfgIn[old]) {
+		info.DstSide = true
+	}
 }
 
 func treeModel(t *gen.Tree) *model.Node {
@@ -304,6 +392,7 @@ func (s *State) Apply(op Op) (Info, error) {
 		info.Wrote, info.Padded = true, pad
 		info.Overlap = s.containsWritten(old)
 		s.written[v] = true
+		s.sides(h, segs, old, &info)
 
 	case SetChild:
 		if op.Val == nil || !op.Val.IsCont() {
@@ -339,6 +428,7 @@ func (s *State) Apply(op Op) (Info, error) {
 		info.Wrote, info.Padded = true, pad
 		info.Overlap = s.containsWritten(old)
 		s.written[m] = true
+		s.sides(h, segs, old, &info)
 		// the new child, obtained the way a user would obtain it, joins the pool
 		var ch *ucfg.Config
 		if err := uc.Safe("Child", func() error {
@@ -378,14 +468,112 @@ func (s *State) Apply(op Op) (Info, error) {
 		if removed {
 			info.Wrote, info.Shifted = true, shift
 			info.Overlap = s.containsWritten(old)
+			s.sides(h, segs, old, &info)
 		}
 
 	case Merge:
-		if op.Val == nil || !op.Val.IsCont() {
-			info.Skipped = "merge without a tree"
-			return info, nil
+		// where the merged value comes from
+		var from *model.Node // what the source holds, in the model
+		var src interface{}  // what is handed to Merge
+		var srcHandle *Handle
+		var srcM *model.Node // the model node of a *Config source
+		isCfg := false
+		switch op.From {
+		case FromHandle:
+			sh, ok := s.Resolve(op.Src)
+			if !ok {
+				info.Skipped = "no pooled handle"
+				return info, nil
+			}
+			from, src, isCfg = sh.M, sh.C, true
+			switch {
+			case sh.M.Contains(h.M):
+				// merging a config into itself or into one of its own descendants reads what it is writing
+				info.Skipped = "merge source contains the target"
+				return info, nil
+			case h.M.Contains(sh.M):
+				// a descendant merged into an ancestor: fine as long as the merge does not reach the
+				// branch the source hangs in (it would modify the source while reading it)
+				p, _ := h.M.PathTo(sh.M)
+				if first := p[0]; (first.IsIdx && len(from.A) > 0) || (!first.IsIdx && len(from.D) > 0 && (from.D[first.Name] != nil || op.Policy == model.Replace)) {
+					info.Skipped = "merge would modify its own source"
+					return info, nil
+				}
+				from, srcM = sh.M.Copy(), sh.M // a snapshot, so that the model does not read what it writes either
+				info.SrcInTarget = true
+			}
+			switch {
+			case op.Src <= 0:
+				info.Source = "handle: the root"
+			case s.Root.M.Contains(sh.M):
+				info.Source = "handle: child of the root's tree"
+			default:
+				info.Source = "handle: stand-alone or detached config"
+			}
+		case FromEmbed:
+			sh, ok := s.Resolve(op.Src)
+			if !ok {
+				info.Skipped = "no pooled handle"
+				return info, nil
+			}
+			// the data is normalized (the embedded config copied) before anything is merged: the
+			// model merges a snapshot, and source and receiver may be the same tree
+			snap := sh.M.Copy()
+			from = model.NewCont()
+			if op.Name == "" {
+				from.A = append(from.A, snap)
+				src = []interface{}{sh.C}
+				info.Source = "data embedding a handle's *Config as a list element"
+			} else {
+				if _, err := from.SetPath(model.ParseAddr(op.Name, -1, s.Sep), snap); err != nil {
+					info.Skipped = "embedding key not usable"
+					return info, nil
+				}
+				src = map[string]interface{}{op.Name: sh.C}
+				info.Source = "data embedding a handle's *Config under a key"
+			}
+			isCfg, srcM = true, sh.M
+		case FromConfig:
+			if op.Val == nil || !op.Val.IsCont() {
+				info.Skipped = "merge without a tree"
+				return info, nil
+			}
+			var fresh *ucfg.Config
+			if err := uc.Safe("NewFrom", func() error {
+				var e error
+				fresh, e = ucfg.NewFrom(op.Val.Go(), s.Opts...)
+				return e
+			}); err != nil {
+				return info, fmt.Errorf("%s: NewFrom(tree) failed: %v", what, err)
+			}
+			from, src, isCfg = treeModel(op.Val), fresh, true
+			srcHandle = &Handle{C: fresh, M: from}
+			info.Source = "fresh *Config"
+		case FromRepr:
+			if op.Val == nil || !op.Val.IsCont() {
+				info.Skipped = "merge without a tree"
+				return info, nil
+			}
+			info.Reprs = map[string]int{}
+			var v interface{}
+			if err := uc.Safe("GoRepr", func() error {
+				var e error
+				v, e = op.Val.GoRepr(s.Opts, info.Reprs)
+				return e
+			}); err != nil {
+				return info, fmt.Errorf("%s: building the Go representation of the tree failed: %v", what, err)
+			}
+			from, src = model.FromTree(op.Val), v
+			info.Source = "mixed Go representations"
+		default:
+			if op.Val == nil || !op.Val.IsCont() {
+				info.Skipped = "merge without a tree"
+				return info, nil
+			}
+			from, src = model.FromTree(op.Val), op.Val.Go()
+			info.Source = "generic data"
 		}
-		from := model.FromTree(op.Val)
+		info.SrcList, info.SrcDict = len(from.A) > 0, len(from.D) > 0
 		if s.NoMixed {
 			cp := h.M.Copy()
 			model.MergeCont(op.Policy, nil, cp, from)
@@ -414,12 +602,35 @@ func (s *State) Apply(op Op) (Info, error) {
 			}
 			return false
 		})
+		var before map[*model.Node]bool
+		if isCfg {
+			before = nodeSet(h.M)
+		}
 		model.MergeCont(op.Policy, nil, h.M, from)
 		opts := append(append([]ucfg.Option{}, s.Opts...), uc.PolicyOpts(op.Policy)...)
-		if err := uc.Safe("Merge", func() error { return h.C.Merge(op.Val.Go(), opts...) }); err != nil {
+		if err := uc.Safe("Merge", func() error { return h.C.Merge(src, opts...) }); err != nil {
 			return info, fmt.Errorf("%s: Merge failed: %v", what, err)
 		}
 		info.Wrote = true
+		if isCfg {
+			// Merge copies: from now on the source and the receiver are two independent trees.
+			// Remember both sides so that later writes on either side are visible in the statistics.
+			if srcM == nil {
+				srcM = from
+			}
+			s.cfgSrc = append(s.cfgSrc, srcM)
+			for n := range nodeSet(h.M) {
+				if !before[n] {
+					s.cfgIn[n] = true
+				}
+			}
+		}
+		if srcHandle != nil {
+			// the source config stays in the case: later operations write through it and every
+			// check of the pooled handles reads it
+			s.pool(*srcHandle)
+			info.Pooled = true
+		}
 
 	case Child:
 		n, merr := h.M.Lookup(segs)
@@ -588,6 +799,24 @@ type GenCfg struct {
 	MoveBias int
 	// D14Open: re-attachments are constructed away (counted in Case.ExclD14)
 	D14Open bool
+
+	// The fields below add dimensions; their zero values leave the generator exactly as it was.
+
+	// Respell (out of 10): chance that a segment of a drawn address (or an object key of a merged / attached
+	// tree) that is a list index is written in another integer syntax (model.IndexSpellings)
+	Respell int
+	// WideIdx (out of 10): chance that an explicit index is drawn from WideIdxs instead of 0..MaxIdx
+	// (indices whose octal, hexadecimal and decimal spellings differ)
+	WideIdx  int
+	WideIdxs []int
+	// Sources (out of 10): chance that a Merge takes its value from something else than generic data:
+	// mixed Go representations, a fresh *Config that stays in the case, or the *Config of an existing handle
+	Sources int
+	// SrcTrees: generator settings for trees that become *Config sources (nil: Trees)
+	SrcTrees *gen.TreeCfg
+	// Seps: the separators given to PathSep (empty: always "."). Names are generated with "." and
+	// rewritten, so none of the separators may occur in Names or in the keys of the trees.
+	Seps []string
 }
 
 // GenAddr draws an address from the pool.
@@ -596,8 +825,105 @@ func GenAddr(t *rapid.T, g *GenCfg, label string) Addr {
 	idx := -1
 	if name == "" || rapid.IntRange(0, 9).Draw(t, label+"withidx") < 4 {
 		idx = rapid.IntRange(0, g.MaxIdx).Draw(t, label+"idx")
+		if g.WideIdx > 0 && len(g.WideIdxs) > 0 && rapid.IntRange(0, 9).Draw(t, label+"wide") < g.WideIdx {
+			idx = rapid.SampledFrom(g.WideIdxs).Draw(t, label+"wideidx")
+		}
 	}
 	return Addr{name, idx}
+}
+
+// respellName rewrites segments of a name that are list indices in another
+// integer syntax. dotted: the name is split at "." (a path separator is
+// configured), otherwise it is one segment.
+func respellName(t *rapid.T, g *GenCfg, name string, dotted bool, label string) string {
+	if g.Respell == 0 || name == "" {
+		return name
+	}
+	parts := []string{name}
+	if dotted {
+		parts = strings.Split(name, ".")
+	}
+	for i, p := range parts {
+		sg := model.ClassifySeg(p)
+		if !sg.IsIdx || rapid.IntRange(0, 9).Draw(t, label+"respell") >= g.Respell {
+			continue
+		}
+		parts[i] = rapid.SampledFrom(model.IndexSpellings(sg.Idx)[1:]).Draw(t, label+"spelling")
+	}
+	return strings.Join(parts, ".")
+}
+
+// respellKeys does the same for the object keys of a tree (keys are never
+// split: the trees of these properties have no separators in their keys).
+// Two keys of one object never denote the same index afterwards because they
+// did not before.
+func respellKeys(t *rapid.T, g *GenCfg, tr *gen.Tree) {
+	if g.Respell == 0 || tr == nil {
+		return
+	}
+	tr.Walk(nil, func(_ []string, n *gen.Tree) {
+		if n.K != "obj" {
+			return
+		}
+		for i, k := range n.Keys {
+			n.Keys[i] = respellName(t, g, k, false, "key")
+		}
+	})
+}
+
+// assignReprs draws the Go representation of every container of a tree.
+func assignReprs(t *rapid.T, tr *gen.Tree) {
+	tr.Walk(nil, func(_ []string, n *gen.Tree) {
+		switch n.K {
+		case "obj":
+			n.R = rapid.IntRange(0, 2*gen.NRepr-1).Draw(t, "repr")
+		case "list":
+			n.R = rapid.IntRange(0, gen.NRepr-1).Draw(t, "repr")
+		}
+	})
+}
+
+// genSourceTree draws a tree that becomes a *Config source of a Merge: half of
+// them are top-level lists whose elements are mostly objects (what a list of
+// sub-configurations looks like), the others are like any merged tree.
+func genSourceTree(t *rapid.T, g *GenCfg) *gen.Tree {
+	cfg := g.SrcTrees
+	if cfg == nil {
+		cfg = g.Trees
+	}
+	switch rapid.IntRange(0, 3).Draw(t, "srcshape") {
+	case 0, 1:
+		l := gen.List()
+		for k := rapid.IntRange(1, 3).Draw(t, "srclen"); k > 0; k-- {
+			if rapid.IntRange(0, 3).Draw(t, "srcelem") == 0 {
+				l.Vals = append(l.Vals, gen.GenTree(t, cfg, 1))
+			} else {
+				l.Vals = append(l.Vals, gen.GenObj(t, cfg, 1))
+			}
+		}
+		return l
+	case 2:
+		return gen.GenObj(t, cfg, cfg.Depth)
+	default:
+		return genTop(t, cfg, cfg.Depth)
+	}
+}
+
+// treeAddrs lists addresses of settings inside a tree (relative to the config
+// it is merged into): the operations that follow a merge are steered there.
+func treeAddrs(tr *gen.Tree) []Addr {
+	var out []Addr
+	tr.Walk(nil, func(p []string, n *gen.Tree) {
+		if len(p) == 0 || len(p) > 3 {
+			return
+		}
+		out = append(out, Addr{strings.Join(p, "."), -1})
+		if n.K == "obj" && len(p) <= 2 {
+			// a setting that is not there yet, next to the ones that are
+			out = append(out, Addr{strings.Join(append(append([]string{}, p...), "x"), "."), -1})
+		}
+	})
+	return out
 }
 
 // related draws an address related to one that an earlier operation wrote
@@ -743,6 +1069,10 @@ func Gen(t *rapid.T, g *GenCfg) Case {
 			if kind == Set || kind == SetChild || kind == Reattach {
 				*pool = append(*pool, a)
 			}
+			if g.Respell > 0 {
+				sp := spell(t, g, a, c.PathSep, "")
+				op.Name, op.Idx = sp.Name, sp.Idx
+			}
 		}
 		switch kind {
 		case Set:
@@ -755,19 +1085,102 @@ func Gen(t *rapid.T, g *GenCfg) Case {
 				op.Val = nestUnder(rapid.SampledFrom(g.ListNames).Draw(t, "listname"), gen.GenList(t, g.Trees, 1))
 			}
 			op.Policy = rapid.SampledFrom(g.Policies).Draw(t, "policy")
+			if g.Sources > 0 && rapid.IntRange(0, 9).Draw(t, "othersource") < g.Sources {
+				switch x := rapid.IntRange(0, 9).Draw(t, "source"); {
+				case x < 2:
+					op.From = FromRepr
+					assignReprs(t, op.Val)
+				case x < 5 || pooling == 0:
+					op.From = FromConfig
+					if rapid.IntRange(0, 3).Draw(t, "srctree") > 0 {
+						op.Val = genSourceTree(t, g)
+					}
+					pooling++
+				case x < 8:
+					op.From = FromHandle
+					op.Val = nil
+					op.Src = rapid.IntRange(0, 6).Draw(t, "src")
+				default:
+					op.From = FromEmbed
+					op.Val = nil
+					op.Src = rapid.IntRange(0, 6).Draw(t, "src")
+					a := GenAddr(t, g, "embed")
+					if len(used) > 0 && rapid.Bool().Draw(t, "embedrel") {
+						a = related(t, g, used, "embed", false)
+					}
+					if rapid.IntRange(0, 4).Draw(t, "embedlist") == 0 {
+						a.Name = "" // as an element of a top-level list
+					}
+					op.Name = a.Name
+					if a.Name != "" && op.H == 0 {
+						used = append(used, Addr{a.Name, -1})
+					} else if a.Name != "" {
+						usedVia = append(usedVia, Addr{a.Name, -1})
+					}
+					op.Name = respellName(t, g, op.Name, c.PathSep, "embed")
+				}
+			}
+			if g.Sources > 0 && op.Val != nil {
+				// steer later operations to what this merge brings in: through the receiver
+				// and, if the source stays in the case, through the source
+				if as := treeAddrs(op.Val); len(as) > 0 {
+					for k := rapid.IntRange(1, 3).Draw(t, "steer"); k > 0; k-- {
+						a := rapid.SampledFrom(as).Draw(t, "steeraddr")
+						if op.H == 0 {
+							used = append(used, a)
+						}
+						if op.H > 0 || op.From == FromConfig {
+							usedVia = append(usedVia, a)
+						}
+					}
+				}
+			}
 		case Reattach:
 			op.Src = rapid.IntRange(0, 5).Draw(t, "src")
 		}
+		respellKeys(t, g, op.Val)
 		c.Ops = append(c.Ops, op)
 	}
+	respellKeys(t, g, c.Init)
 	all := append(append([]Addr{}, used...), usedVia...)
 	for i := 0; i < g.NReads; i++ {
 		label := "read" + strconv.Itoa(i)
+		var a Addr
 		if len(all) > 0 && rapid.IntRange(0, 9).Draw(t, label+"rel") < 7 {
-			c.Reads = append(c.Reads, related(t, g, all, label, false))
+			a = related(t, g, all, label, false)
 		} else {
-			c.Reads = append(c.Reads, GenAddr(t, g, label))
+			a = GenAddr(t, g, label)
+		}
+		if g.Respell > 0 {
+			a = spell(t, g, a, c.PathSep, label)
+		}
+		c.Reads = append(c.Reads, a)
+	}
+	if c.PathSep && len(g.Seps) > 0 {
+		if sep := rapid.SampledFrom(g.Seps).Draw(t, "sep"); sep != "." {
+			c.Sep = sep
+			for i := range c.Ops {
+				c.Ops[i].Name = strings.ReplaceAll(c.Ops[i].Name, ".", sep)
+			}
+			for i := range c.Reads {
+				c.Reads[i].Name = strings.ReplaceAll(c.Reads[i].Name, ".", sep)
+			}
 		}
 	}
 	return c
+}
+
+// spell rewrites an address without changing what it denotes: index segments
+// of the name in another integer syntax, and sometimes the explicit index as a
+// last segment of the name (with a path separator, or when there is no name).
+func spell(t *rapid.T, g *GenCfg, a Addr, pathSep bool, label string) Addr {
+	a.Name = respellName(t, g, a.Name, pathSep, label)
+	if a.Idx >= 0 && (pathSep || a.Name == "") && rapid.IntRange(0, 9).Draw(t, label+"idxasname") < 2 {
+		seg := rapid.SampledFrom(model.IndexSpellings(a.Idx)).Draw(t, label+"idxspelling")
+		if a.Name == "" {
+			return Addr{seg, -1}
+		}
+		return Addr{a.Name + "." + seg, -1}
+	}
+	return a
 }
